@@ -4,6 +4,7 @@
 use crate::core::{Failure, Report};
 
 pub mod c01;
+pub mod c01b;
 pub mod c02;
 pub mod c03;
 pub mod c04;
@@ -61,6 +62,7 @@ pub fn run(prop: &str, report: &Report) -> i32 {
 pub fn replay(f: &Failure) -> i32 {
     match f.check.as_str() {
         "c01a" => crate::core::replay_case(f, c01::case_a),
+        "c01b-assembler" => crate::core::replay_case(f, c01b::case),
         "c02" => crate::core::replay_case(f, c02::case),
         "c03_frames" => crate::core::replay_case(f, c03::case),
         "c03_tp" => crate::core::replay_case(f, c03::case_tp),
